@@ -395,7 +395,10 @@ def apply_real(obj, op, a, tables=None, variant=0):
             elif variant % 3 == 1:
                 out = [int(x) for x in m[[int(x) for x in a[2]]]] if len(a[2]) else []
             else:
-                out = [int(x) for x in m[np.array([int(x) for x in a[2]], dtype=_DT[variant % 4])]]
+                # the array form must be able to hold the codes (codes >= 256 of a wide source alphabet
+                # do not fit uint8: that would be an error of this driver, not of the mapper)
+                k = variant % 4 if max([int(x) for x in a[2]] + [0]) < 256 else 1 + variant % 3
+                out = [int(x) for x in m[np.array([int(x) for x in a[2]], dtype=_DT[k])]]
         elif op == "translate":
             codes, tbl, complete, starts, met = a
             if isinstance(tbl, str):
